@@ -9,6 +9,48 @@ import traceback
 VERIF = os.path.dirname(os.path.dirname(os.path.abspath(__file__)))
 
 
+def _q(tier, quick, thorough):
+    return quick if tier == "quick" else thorough
+
+
+# The stated bounds of every bounded stand-in (what is enumerated / sampled in each tier); kept next to the
+# harness so that every evidence file carries them.  "curated" = the 52 hand-written schemas of bounded/gen.py
+# (every type, nesting, by-name references, recursive types, namespaces); "trees <= n" = every schema tree with at
+# most n type nodes over the listed primitives; "boundary data" = gen.data_for: per type the boundary values
+# (int/long extremes, +-0.0/inf/nan, empty/long/non-ASCII strings, empty and 1..3-element containers, every branch).
+BOUNDS = {
+    "C01": lambda t: {"schemas": f"curated + trees <= {_q(t, 3, 4)} over all primitives", "data": f"boundary data, <= {_q(t, 40, 'all')} per schema",
+                      "checks": "round trip == NORM, exact consumption, back-to-back values"},
+    "C02": lambda t: {"schemas": f"curated + trees <= {_q(t, 3, 4)}", "data": f"boundary data, <= {_q(t, 40, 'all')} per schema; wrong-length fixed"},
+    "C03": lambda t: {"schemas": f"curated + trees <= {_q(t, 3, 4)}", "data": f"<= {_q(t, 24, 'all')} per schema", "encodings": "every block partition of arrays/maps up to 3 blocks, positive and negative counts",
+                      "prefixes": "every proper prefix of every encoding", "indices": "every out-of-range union/enum index incl. negative"},
+    "C04": lambda t: {"schemas": "curated + trees <= 2", "record sets": "[], 1, 7, 12 records", "codecs": _q(t, "null + one random of deflate/bzip2/xz", "null, deflate, bzip2, xz"),
+                      "sync_interval": "1 byte .. larger than the file", "streams": "BytesIO, read-only sequential, write-only non-seekable"},
+    "C05": lambda t: {"schemas": "curated + trees <= 2", "independent writer": "block partitions incl. empty blocks, metadata map in 1..3 chunks, codec key absent",
+                      "fixtures": f"<= {_q(t, 12, 200)} files of /repo/tests/avro-files", "is_avro": "written files and a list of arbitrary byte strings (empty, short, near-magic)"},
+    "C06": lambda t: {"files": "files of the C04 schema pool x 4 codecs (sync_interval 1 or 40) + one with values of 66000 / 70000 bytes", "cuts": _q(t, "every offset of files <= 700 bytes, 300 sampled + block boundaries otherwise", "every offset"),
+                      "sync": f"every marker byte position {_q(t, '0, 7, 15', '0..15')} x single-bit flips"},
+    "C07": lambda t: {"histories": f"{_q(t, 40, 600)} random histories of 3..13 operations over write / large write / failing write / flush / write_block / reopen for append; random codec, sync_interval in 1, 10, 50, 16000"},
+    "C08": lambda t: {"writer schemas": "curated + trees <= 2 + by-reference pools", "reader schemas": f"single evolution steps at every position ({_q(t, '<= 30 sampled per schema', 'all')})",
+                      "data": f"<= {_q(t, 6, 20)} values per writer schema"},
+    "C09": lambda t: {"unions": "18 hand-written unions + by-name variants", "data": "branch data + cross-branch values, every (name, value) hint, every '-type' hint incl. wrong ones",
+                      "options": "disable_tuple_notation x return_record_name / return_named_type and their overrides"},
+    "C10": lambda t: {"schemas": f"curated + trees <= {_q(t, 2, 3)} + unions + nested-hint records", "data": f"conforming (<= {_q(t, 25, 'all')} per schema) + 16 single mutations of the first 6 + nested hints",
+                      "modes": "raise_errors x strict x disable_tuple_notation; writer agreement; validation gate"},
+    "C11": lambda t: {"valid schemas": "curated + trees <= 3 over int/string + namespace / attribute cases", "mutations": f"every listed ill-forming mutation at every position ({_q(t, '<= 40 sampled per schema', 'all')})"},
+    "C12": lambda t: {"schemas": "as C11", "forms": "raw, parsed, piecewise-parsed against a shared name table", "operations": "binary, container, JSON, validate, canonical form, generate"},
+    "C13": lambda t: {"schemas": "as C11 + Apache reference vectors of the test suite", "cosmetic edits": f"doc / aliases / defaults / order / custom and logical attributes / key order / name spelling ({_q(t, '<= 25 sampled', 'all')})"},
+    "C14": lambda t: {"texts": f"canonical forms of 40 schemas + {_q(t, 300, 5000)} random texts incl. non-ASCII and > 64 bytes", "algorithms": "every name advertised + Java spellings + unknown names"},
+    "C15": lambda t: {"schemas": f"curated + trees <= {_q(t, 2, 3)}", "data": f"boundary data <= {_q(t, 14, 'all')} per schema", "checks": "JSON text == spec JSON encoding, JSON round trip, agreement with binary, absent keys -> defaults"},
+    "C16": lambda t: {"values": f"{_q(t, 300, 5000)} random + boundary dates / times / timestamps (aware with {_q(t, 'one random', 'every listed')} UTC offset, local), uuids",
+                      "decimals": f"precisions {_q(t, '1, 2, 5, 9', '1..11')} x scales x bytes and fixed sizes, 29-45 digit values"},
+    "C17": lambda t: {"histories": f"{_q(t, 150, 1500)} call histories over the public API with shared schema / name-table / option objects, compared with a fresh interpreter"},
+    "C18": lambda t: {"threads": f"{_q(t, 30, 300)} rounds of 4 threads x 5 calls each on shared parsed schemas, switch interval 1e-6 s", "schedules": "pause-after-store for every store site the frame check flags (none on the unchanged tree)"},
+    "C19": lambda t: {"graphs": f"the hand-written dependency graphs of bounded/c15.py:dags (shared types used from several places and depths, namespace-relative names, single file) + {_q(t, 12, 300)} random acyclic graphs of 2..7 types over two namespaces (references from fields, arrays, maps, unions; full and bare names) + every single missing file"},
+    "C20": lambda t: {"schemas": "curated + trees <= 2 + logical types + non-record tops", "counts": _q(t, "n = 0, 1, 3 and generate_one, one random seed each", "n = 0, 1, 3, 2, 5, 1, 1, 1 and generate_one, one random seed each")},
+}
+
+
 class Result:
     def __init__(self, prop, tier, seed):
         self.prop = prop
@@ -21,7 +63,7 @@ class Result:
         self.samples = []
         self.clauses = {}        # clause -> count
         self.t0 = time.time()
-        self.bounds = {}
+        self.bounds = BOUNDS.get(prop, lambda t: {})(tier)
         self.notes = []
         self.findings = load_findings(prop)
 
